@@ -63,11 +63,25 @@ def digit_limit():
             if not replay_digit_limit(digits, hexa):
                 out.update(status="sat", model={"digits": digits, "hexa": hexa}, detail="numeric reference with %d digits" % digits)
                 return out
+    # C-level limits of chr(): values at the int / Py_ssize_t boundaries must decode to U+FFFD without raising
+    for v in (2 ** 31 - 1, 2 ** 31, 2 ** 32, 2 ** 63 - 1, 2 ** 63, 2 ** 64):
+        if not replay_digit_limit(0, True, value=v):
+            out.update(status="sat", model={"digits": 0, "hexa": True, "value": v}, detail="numeric reference with value %d" % v)
+            return out
+    out["queries"] = 10
     out["status"] = "unsat"
     out["solver_s"] = round(time.time() - t0, 3)
     return out
 
-def replay_digit_limit(digits, hexa, **_):
+def replay_digit_limit(digits, hexa, value=None, **_):
+    if value is not None:
+        from harness.tokcommon import mk_tokenizer
+        t = mk_tokenizer(("%x" % value) + ";")
+        try:
+            return t.consumeNumberEntity(True) == "\ufffd"
+        except Exception as e:
+            print("consumeNumberEntity raised %s: %s" % (type(e).__name__, str(e)[:100]))
+            return False
     from harness.tokcommon import mk_tokenizer
     t = mk_tokenizer("9" * digits + ";")
     try:
